@@ -97,11 +97,13 @@ def opt (m : Match) (i : Nat) : M (Option Str) :=
   if i > m.ngroups then raise (.indexError "no such group")
   else pure (m.res.group m.inp i)
 
-/-- `match[i]` used as a string: raises where Python would fail on `None`. -/
-def str (m : Match) (i : Nat) (site : String := "group") : M Str := do
-  match ← m.opt i with
-  | some s => pure s
-  | none => raise (.noneType site)
+/-- `match[i]` used as a string: raises where Python would (`IndexError` for a group the pattern does not have, the
+    failure on `None` for one that did not participate); both carry the call site. -/
+def str (m : Match) (i : Nat) (site : String := "group") : M Str :=
+  if i > m.ngroups then raise (.indexError site)
+  else match m.res.group m.inp i with
+    | some s => pure s
+    | none => raise (.noneType site)
 
 /-- `match[i] or ''` -/
 def orEmpty (m : Match) (i : Nat) : M Str := do
